@@ -56,6 +56,11 @@ ET_CURV = [(0.0, 2.36), (4.15, 0.0), (4.15, 2.36), (0.37, 0.01)]
 MEANS = [0.0, 19.0]
 
 
+def decoy():
+    from mc.lib import decoy as decoy_mod
+    decoy_mod.functions()
+
+
 def BOUND(tier):
     return ('6 parameter sets x 4 (ET, curvature) x 4 grids x 2 directions '
             'x 2 refinements x 2 means at function level; 3 datasets x 4 '
